@@ -5,6 +5,9 @@ def level_dir_and_tile(layout, tile, cache_dir, file_ext, dimensions):
     """what FileCache does: the pair of functions of a layout, applied to one tile and to that tile's level"""
     tile_location, level_location = location_funcs(layout)
     loc = tile_location(tile, cache_dir, file_ext, False, dimensions)
+    if level_location is None:
+        # (FileCache disables the level-wise clean-up for such a layout: it then has to go tile by tile)
+        return loc, None
     lvl = level_location(tile.coord[2], cache_dir, dimensions)
     return loc, lvl
 
